@@ -10,7 +10,7 @@ import ast
 
 from ..engine import rule
 from ..model import Undecided
-from ..cfg import implied, dotted, call_name, is_call, simple_name, unparse, const_value, contains, enclosing
+from ..cfg import same, implied, dotted, call_name, is_call, simple_name, unparse, const_value, contains, enclosing
 from ..flow import Canon, Defs, depends
 from ..decide import table, ret_kind
 from ..util import keyword, returns_of, calls_in, inside, order_key
@@ -99,7 +99,7 @@ def c13b(ctx):
     ctx.check(ok and not stores, 'TileManager.expire_timestamp:per-use', 'a relative refresh rule is evaluated on every call (nothing is memoised in an attribute)', fn,
               fail='the refresh threshold is computed once and stored: a relative age ("older than 1 hour") stops moving with the clock')
     rets = g.find_stmts(lambda s: isinstance(s, ast.Return))
-    ok = any(unparse(g.stmt[r].value) == 'self._expire_timestamp' and not g.guarded(r, lambda at: at.op is None and unparse(at.expr) == 'self._refresh_before', True) for r in rets)
+    ok = any(same(g.stmt[r].value, 'self._expire_timestamp') and not g.guarded(r, lambda at: at.op is None and same(at.expr, 'self._refresh_before'), True) for r in rets)
     ctx.check(ok, 'TileManager.expire_timestamp:fallback', 'without a refresh rule the task/manager threshold _expire_timestamp is used', fn)
     bt = ctx.fn('mapproxy/seed/config.py:before_timestamp_from_options')
 
@@ -149,7 +149,7 @@ def c13c(ctx):
         hn = g.node_of[id(handlers[0])]
         for n, x in stores:
             # the store is guarded by the truthiness of the fetch result
-            ok = g.guarded(n, lambda at: at.op is None and unparse(at.expr) == 'source', True)
+            ok = g.guarded(n, lambda at: at.op is None and same(at.expr, 'source'), True)
             ctx.check(ok, 'TileCreator._create_single_tile:store-needs-fetch-result',
                       'the store only runs when the fetch returned an image (`if not source: return []`)', fn, x,
                       fail='the store is reachable when the fetch produced nothing (failed refresh overwrites the old tile)')
@@ -161,7 +161,7 @@ def c13c(ctx):
             any(is_call(v, 'self._query_sources') for v in src)
         ctx.check(ok, 'TileCreator._create_single_tile:source-is-fetch-result', '`source` is None or the value returned by _query_sources', fn)
         ts = [s for s in fn.walk() if isinstance(s, ast.Assign) and unparse(s.targets[0]) == 'tile.source']
-        ok = bool(ts) and all(unparse(s.value) == 'source' for s in ts)
+        ok = bool(ts) and all(same(s.value, 'source') for s in ts)
         ctx.check(ok, 'TileCreator._create_single_tile:stores-fetch-result', 'the tile that is stored carries the fetch result', fn)
         # handler: load stale tile or re-raise
         h = handlers[0]
@@ -181,8 +181,8 @@ def c13c(ctx):
     g = fn.cfg
     defs = Defs(fn.node)
     for n, x in g.find(lambda x: is_call(x, 'self.cache.store_tiles')):
-        ok = g.guarded(n, lambda at: at.op is None and unparse(at.expr) == 'meta_tile_image', True) and \
-            depends(x.args[0], lambda y: is_call(y, 'split_meta_tiles') and y.args and unparse(y.args[0]) == 'meta_tile_image', defs)
+        ok = g.guarded(n, lambda at: at.op is None and same(at.expr, 'meta_tile_image'), True) and \
+            depends(x.args[0], lambda y: is_call(y, 'split_meta_tiles') and y.args and same(y.args[0], 'meta_tile_image'), defs)
         ctx.check(ok, 'TileCreator._create_meta_tile:stores-fetch-result', 'the stored tiles are cut out of the image just fetched, and only if one was fetched', fn, x)
     # who may remove: no creator calls remove_tile(s)
     for qn in CREATORS + ['mapproxy/cache/renderd.py:RenderdTileCreator._create_single_tile', 'mapproxy/cache/renderd.py:RenderdTileCreator._create_meta_tile',
@@ -215,12 +215,12 @@ def c13e(ctx):
     md = g.find(lambda x: is_call(x, 'load_tile_metadata'))
     ok = bool(md)
     for n, x in md:
-        ok = ok and g.guarded(n, lambda at: at.op is None and unparse(at.expr) == 'cached', True) and \
+        ok = ok and g.guarded(n, lambda at: at.op is None and same(at.expr, 'cached'), True) and \
             g.guarded(n, lambda at: at.op == '==' and 'max_mtime' in at.text and 'None' in at.text, False)
     ctx.check(ok, 'TileManager.is_cached:test-iff-cached-and-threshold', 'the timestamp is loaded and compared only if the tile exists and a threshold is set', fn,
               fail='the staleness test runs for missing tiles or without a threshold (or never)')
     c = g.find(lambda x: is_call(x, 'self.cache.is_cached'))
-    rets = g.find_stmts(lambda s: isinstance(s, ast.Return) and unparse(s.value) == 'cached')
+    rets = g.find_stmts(lambda s: isinstance(s, ast.Return) and same(s.value, 'cached'))
     ok = len(c) == 1 and bool(rets)
     ctx.check(ok, 'TileManager.is_cached:starts-from-backend', 'the answer starts from cache.is_cached() and is only ever lowered by the staleness test', fn)
 
